@@ -90,6 +90,7 @@ static void c02_twin(World *w, Buf *b, int pos, int variant) {
 }
 
 static void scen_c02(int histories, int maxops, int every) {
+    g_tpm2_statics = 1;   /* a resume or power cycle starts from the load-time image of the library's globals, as in a new process */
     Buf b = {0}; World w; memset(&w, 0, sizeof w);
     for (int h = 0; h < histories; h++) {
         tr("hist %d", h);
